@@ -99,7 +99,7 @@ def c14_units(tier):
 
 
 reg("C14", c14_units,
-    "bounded symbolic model checking of the two entry points that assign an epic (createTask, applySetUpdates/buildSetEvents) from an arbitrary store satisfying I1-I5, post-state read back through the real replay; prune/compact/plan sides of the invariant are covered by C09/C05/C11.",
+    "bounded symbolic model checking of the two entry points that assign an epic (createTask, applySetUpdates/buildSetEvents) from an arbitrary store satisfying I1-I5, post-state read back through the real replay, and of prune --yes (every surviving task's epic is still live); compact/plan sides of the invariant are covered by C05/C11.",
     ["L1 world stubs (symbolic store) as in C07"])
 
 
@@ -224,7 +224,7 @@ def c04_units(tier):
 
 
 reg("C04", c04_units,
-    "bounded symbolic model checking of multi-event commands on the file model: the process is killed between any two of its system calls and the replayed state must equal the state before or the state after the command.",
+    "bounded symbolic model checking of multi-event commands on the file model: claim (claim+state), set (title+body), prune (one tombstone per target) and plan (temp file + rename) are killed between any two of their system calls and the replayed state must equal the state before or the state after the whole command.",
     FS_ASSUME)
 
 
@@ -292,7 +292,7 @@ def c12_units(tier):
 
 
 reg("C12", c12_units,
-    "bounded symbolic model checking of five obligation groups: located parse errors (real readEvents on an arbitrary <=3-line file vs the rule written as a formula), totality (panic / unwinding obligations of replay and every reader for 2 arbitrary events), determinism of the epics ordering (2-safety: same result for both input orders), read purity (no effect on the log), history only grows (old lines present with identical content after appends, plan and prune).",
+    "bounded symbolic model checking of five obligation groups: located parse errors (real readEvents on an arbitrary <=3-line file vs the rule written as a formula), totality (panic / unwinding obligations of replay and every JSON-side reader for 2 arbitrary events, thorough 3; and of the human row renderer formatTreeLine over display widths), determinism of the epics ordering (2-safety: same result for both input orders), read purity (no effect on the log), history only grows (old lines present with identical content after appends, plan and prune).",
     FS_ASSUME + ["byte-level behaviour of bufio.Scanner / encoding/json on arbitrary bytes (bit flips, 10 MiB lines, wrong field types) is represented only through the line flags {blank, parses} and the payload flag {malformed}; that those libraries terminate and do not panic is assumed",
                  "determinism is checked for the one sort whose comparator is not total by construction (sortByCreatedAt); other sorts compare ids, which are unique"])
 
@@ -391,7 +391,7 @@ def c19_units(tier):
 
 
 reg("C19", c19_units,
-    "bounded symbolic model checking of the STRUCTURE of the human list: the node tree the renderer is given (real buildListRoots / buildTree / filterAndCollapseNodes / filterNodesByReady / derivedEpicState) holds every live item exactly once with --all, every active task exactly once by default, exactly the ready tasks with --ready, children under their own epic, two levels; the numbers behind the summary line (real computeStatsForTasks over the real scope filters) equal the tasks per bucket. One node = one row.",
+    "bounded symbolic model checking of the STRUCTURE of the human list: the node tree the renderer is given (real buildListRoots / buildTree / filterAndCollapseNodes / filterNodesByReady / derivedEpicState) holds every live item exactly once with --all, every active task exactly once by default, exactly the ready tasks with --ready, children under their own epic, two levels; the numbers behind the summary line (real computeStatsForTasks over the real scope filters) equal the tasks per bucket. One node = one row. Row layout: formatTreeLine over a display-width abstraction (no panic; the id ends exactly in its right-hand column whenever the fixed part of the row leaves room). Byte level: abbreviate keeps valid UTF-8 (RFC 3629 state machine and utf8.ValidString executed on <=6 symbolic bytes).",
     ["NOT decided (byte level): that a row fits the terminal width, ends with the id in a fixed column, and is valid UTF-8 for every title / claimant / blocker text (formatTreeLine, truncateToWidth, abbreviate work on bytes and runes; the engine's byte mode did not reach them: see DESIGN); the empty-view sentences; the --epic focused view",
      "CUT: topoSortTasks replaced by the identity (order of siblings is not claimed)",
      "store invariants I1-I5 assumed (established by C06/C07/C14 steps)"])
